@@ -689,22 +689,56 @@ func ruleDocumentFilter(r *Run, rule string) {
 			})
 		}
 	}
+	var foreign []string // any other in-place operation on the filter's bitmap
+	var addSite ssa.Instruction
 	allInstrs(nf, func(in ssa.Instruction) {
 		if call, ok := in.(*ssa.Call); ok {
-			switch calleeName(call.Common()) {
+			n := calleeName(call.Common())
+			switch n {
 			case roaringBitmap + "Add":
 				if c.S(call.Call.Args[1]) == "P0[range]" {
 					addAll = true
+					addSite = in
+				} else {
+					foreign = append(foreign, "Add("+c.S(call.Call.Args[1])+") at "+w.InstrPos(in))
 				}
 			case roaringBitmap + "AddMany":
 				if c.S(call.Call.Args[1]) == "P0" {
 					addAll = true
+					addSite = in
+				} else {
+					foreign = append(foreign, "AddMany("+c.S(call.Call.Args[1])+") at "+w.InstrPos(in))
 				}
 			case roaringBitmap + "Clear":
 				cleared = true
+			default:
+				if strings.HasPrefix(n, roaringBitmap) && roaringMutators[strings.TrimPrefix(n, roaringBitmap)] {
+					foreign = append(foreign, strings.TrimPrefix(n, roaringBitmap)+" at "+w.InstrPos(in))
+				}
 			}
 		}
 	})
+	// the bitmap holds the listed ids and nothing else: no other insertion (a range insert covers ids that were never
+	// listed), and every filter handed out went through the insertion of all ids
+	r.Check(len(foreign) == 0, rule, "filter:only-listed", w.Pos(nf.Pos())+" NewDocumentFilter", "the bitmap is only cleared and given the listed ids one by one (or all at once)",
+		"the filter's bitmap is also modified by "+strings.Join(foreign, ", ")+": ids outside the list may become eligible")
+	if addSite != nil {
+		skipped := ""
+		var gate *ssa.BasicBlock = addSite.Block()
+		if l := innermostLoop(loopsOf(nf), addSite.Block()); l != nil {
+			gate = l.Header
+		}
+		for _, ret := range returnsOf(nf) {
+			if cst, ok := ret.Results[0].(*ssa.Const); ok && cst.Value == nil {
+				continue
+			}
+			if !(gate == ret.Block() || gate.Dominates(ret.Block())) {
+				skipped = w.InstrPos(ret)
+			}
+		}
+		r.Check(skipped == "", rule, "filter:every-return-filled", w.Pos(nf.Pos())+" NewDocumentFilter", "every filter returned has been through the insertion of all listed ids",
+			"the filter returned at "+skipped+" did not go through the insertion of the listed ids")
+	}
 	site := w.Pos(nf.Pos()) + " NewDocumentFilter"
 	r.Check(nilOK, rule, "filter:nil-iff-empty", site, "no filter (nil) ⇔ the id list is empty", "the nil filter is not returned exactly for an empty id list")
 	r.Check(addAll && cleared, rule, "filter:holds-ids", site, "the (reset) bitmap receives every listed id", fmt.Sprintf("bitmap reset=%v, every id added=%v", cleared, addAll))
